@@ -179,9 +179,11 @@ OV_CFG = ["identical", "common left endpoint, first shorter", "common left endpo
           "partial overlap, first starts first", "partial overlap, second starts first", "first contains second", "second contains first"]
 OV_DIR = dict(h="horizontal", v="vertical", r="rising", f="falling")
 # templates verified to fit into 44 GB / 15 min on the unchanged tree (the others stay in the thorough tier only if they fit)
-OV_QUICK_ROTATION = ["v6s", "f5s"]
-OV_ALL = ["h0s", "h1c", "h2s", "h3s", "h4c", "h5s", "h6c", "h7s", "h8c", "h5_same", "v0c", "v1s", "v2c", "v3c", "v4s", "v5c", "v6s", "v7c", "v8s", "v1_same",
-          "r1s", "r4c", "r6s", "r7c", "f2s", "f3c", "f5s", "f6c", "f8s"]
+OV_QUICK_ROTATION = ["v6s", "f5s", "h5s", "h6c", "v5c", "v8s", "v1_same", "r6s"]  # those that take <= 400 s
+# registered = the templates that fit into 44 GB on the unchanged tree (measured once each); the other ten configurations
+# (h2s h3s h7s v2c v3c v7c r4c r7c f2s f3c) exist in h_pi.rs but run out of memory in the solver and are not registered
+OV_ALL = ["h0s", "h1c", "h4c", "h5s", "h6c", "h8c", "h5_same", "v0c", "v1s", "v4s", "v5c", "v6s", "v8s", "v1_same",
+          "r1s", "r6s", "f5s", "f6c", "f8s"]
 for nm in OV_ALL:
     d, c = OV_DIR[nm[0]], OV_CFG[int(nm[1])]
     who = "same operand" if nm.endswith("_same") else ("first segment subject" if nm[2] == "s" else "first segment clipping")
